@@ -264,6 +264,69 @@ def run(tier, seed):
                         break
                 os.chdir(scratch)
                 shutil.rmtree(root, ignore_errors=True)
+            # several loads in ONE process: same relative path strings in different directories, an include file
+            # edited between two loads, and a later program that merely uses an operation named like an earlier include
+            for i in range(12 if quick else 200):
+                if len(res.violations) >= 5:
+                    break
+                base = os.path.join(scratch, "P%d" % i)
+                texts = {}
+                for proj in ("A", "B"):
+                    g1, g2 = rng.sample(GATES, 2)
+                    m1, m2 = sorted(rng.sample([1, 4, 9, 12], 2))
+                    sub = "name Sub\nversion 1.0\n\n%s({x}) | %d\n%s(0.5, {x}) | [%d, %d]\n" % (g1, m1, g2, m2, m1)
+                    main = 'name main\nversion 1.0\ninclude "lib/sub.xbb"\n\nSub(x=%s) | [%d, %d]\nVac | 0\nSub(x=2) | [%d, %d]\n' % (
+                        rng.choice(["0.5", "1.25", "3"]), rng.randint(0, 3), rng.randint(4, 6), rng.randint(4, 6), rng.randint(0, 3))
+                    texts[proj] = (sub, main, g1, g2, m1, m2)
+                    os.makedirs(os.path.join(base, proj, "lib"), exist_ok=True)
+                    open(os.path.join(base, proj, "lib", "sub.xbb"), "w").write(sub)
+                    open(os.path.join(base, proj, "main.xbb"), "w").write(main)
+
+                def expect(proj, base=base):
+                    files = {os.path.join(base, proj, "lib", "sub.xbb"): texts[proj][0], os.path.join(base, proj, "main.xbb"): texts[proj][1]}
+                    return observe.model_load(model, "main.xbb", cwd=os.path.join(base, proj), files=files)
+                seqs = [("A", "B", "A"), ("B", "A")]
+                msg = None
+                for proj in rng.choice(seqs):
+                    os.chdir(os.path.join(base, proj))
+                    impl.reset_tables()
+                    try:
+                        p = blackbird.load("main.xbb")
+                    except Exception as e:  # noqa: BLE001
+                        msg = "loading project %s (relative path, after other loads in this process) fails: %s: %s" % (proj, type(e).__name__, str(e)[:100])
+                        break
+                    mo = expect(proj)
+                    d = observe.cmp_prog(mo["v"], p, stats, lax_kind=True) if mo["out"] == "ok" else ["model: %s" % mo["out"]]
+                    if d:
+                        msg = "after earlier loads in the same process, project %s (same relative include path, different files) is not its inlining: %s" % (proj, "; ".join(d[:2]))
+                        break
+                if msg is None:
+                    # edit the include file and load again through the same (absolute) path
+                    pa = os.path.join(base, "A", "main.xbb")
+                    os.chdir(scratch)
+                    impl.reset_tables()
+                    blackbird.load(pa)
+                    newsub = texts["B"][0]
+                    open(os.path.join(base, "A", "lib", "sub.xbb"), "w").write(newsub)
+                    impl.reset_tables()
+                    p = blackbird.load(pa)
+                    mo = observe.model_load(model, pa, cwd=scratch, files={os.path.join(base, "A", "lib", "sub.xbb"): newsub, pa: texts["A"][1]})
+                    d = observe.cmp_prog(mo["v"], p, stats, lax_kind=True) if mo["out"] == "ok" else []
+                    if d:
+                        msg = "an include file edited between two loads of the same path is not re-read: " + "; ".join(d[:2])
+                if msg is None:
+                    # a later, unrelated program using an operation called Sub (no include) must keep it as an operation
+                    impl.reset_tables()
+                    q = blackbird.loads("name other\nversion 1.0\nSub(x=1) | [0, 1]\n")
+                    if len(q.operations) != 1 or q.operations[0]["op"] != "Sub":
+                        msg = "an operation named like a program included by an EARLIER load is expanded: %r" % (q.operations,)
+                res.case("history-%d" % i + texts["A"][0] + texts["B"][0], True, None)
+                res.count("same-process-sequence")
+                if msg:
+                    ok = False
+                    res.violate(msg, {"check": "include-history", "A": {"sub": texts["A"][0], "main": texts["A"][1]}, "B": {"sub": texts["B"][0], "main": texts["B"][1]}})
+                os.chdir(scratch)
+                shutil.rmtree(base, ignore_errors=True)
             # faults: wrong number of modes, wrong / missing keyword arguments
             nf = 0
             for i in range(30 if quick else 600):
@@ -324,6 +387,30 @@ def replay(rep):
     import impl
     inp = rep["input"]
     scratch = tempfile.mkdtemp(prefix="bbverif.", dir="/var/tmp")
+    if inp.get("check") == "include-history":
+        try:
+            outs = {}
+            for proj in ("A", "B"):
+                os.makedirs(os.path.join(scratch, proj, "lib"))
+                open(os.path.join(scratch, proj, "lib", "sub.xbb"), "w").write(inp[proj]["sub"])
+                open(os.path.join(scratch, proj, "main.xbb"), "w").write(inp[proj]["main"])
+            import subproc
+            pristine = {}
+            for proj in ("A", "B"):
+                pristine[proj] = subproc.run_batch([{"kind": "load", "path": os.path.join(scratch, proj, "main.xbb")}], 0)[0]["obs"]["ops"]
+            import json
+            import worker
+            bad = False
+            for proj in ("A", "B", "A"):
+                os.chdir(os.path.join(scratch, proj))
+                got = worker.observe(blackbird.load("main.xbb"))["ops"]
+                if json.dumps(got, sort_keys=True) != json.dumps(pristine[proj], sort_keys=True):
+                    print("project %s differs from its pristine load" % proj)
+                    bad = True
+            return 1 if bad else 0
+        finally:
+            os.chdir("/verif")
+            shutil.rmtree(scratch, ignore_errors=True)
     try:
         files = {k.replace("<root>", scratch): v.replace("<root>", scratch) for k, v in inp["files"].items()}
         write_files(files)
